@@ -478,7 +478,17 @@ func (dm *DagModifier) modifyDag(n ipld.Node, offset uint64) (cid.Cid, error) {
 				return cid.Cid{}, err
 			}
 
-			node.Links()[i].Cid = k
+			// Replace the link instead of changing it in place: ProtoNode.Copy
+			// and Links share the Link values, so a node this one was copied
+			// from or to (the result of an earlier GetNode, the node an MFS
+			// File still shows) must not change with it.
+			links := node.Links()
+			lnk := *links[i]
+			lnk.Cid = k
+			links[i] = &lnk
+			if err := node.SetLinks(links); err != nil {
+				return cid.Cid{}, err
+			}
 
 			// Recache serialized node
 			_, err = node.EncodeProtobuf(true)
